@@ -52,3 +52,68 @@ func PSID(count uint16, hash []byte, nid uint32) *consensus.PartSetIDAndAppData 
 func NilVoteBlockID(nid uint32) []byte {
 	return codec.BC.MustMarshalToBytes(int(nid))
 }
+
+// AppendEmptyListElement re-encodes an RLP list (goloop codec.BC framing) with one more
+// element, an empty list (0xc0), appended. For a VoteMessage this is the optional 8th
+// element (NTS votes) present-but-empty; goloop's own encoder omits it.
+func AppendEmptyListElement(bs []byte) ([]byte, bool) {
+	if len(bs) == 0 {
+		return nil, false
+	}
+	var payload []byte
+	b := bs[0]
+	switch {
+	case b >= 0xc0 && b <= 0xf7:
+		l := int(b - 0xc0)
+		if len(bs) != 1+l {
+			return nil, false
+		}
+		payload = bs[1:]
+	case b >= 0xf8:
+		ll := int(b - 0xf7)
+		if len(bs) < 1+ll {
+			return nil, false
+		}
+		l := 0
+		for _, x := range bs[1 : 1+ll] {
+			l = l<<8 | int(x)
+		}
+		if len(bs) != 1+ll+l {
+			return nil, false
+		}
+		payload = bs[1+ll:]
+	default:
+		return nil, false
+	}
+	np := append(append([]byte(nil), payload...), 0xc0)
+	var hdr []byte
+	if len(np) <= 55 {
+		hdr = []byte{0xc0 + byte(len(np))}
+	} else {
+		var lb []byte
+		for l := len(np); l > 0; l >>= 8 {
+			lb = append([]byte{byte(l)}, lb...)
+		}
+		hdr = append([]byte{0xf7 + byte(len(lb))}, lb...)
+	}
+	return append(hdr, np...), true
+}
+
+// DecodeVote decodes vote bytes the way the engine does for a received message.
+func DecodeVote(bs []byte) (*consensus.VoteMessage, error) {
+	m, err := consensus.UnmarshalMessage(uint16(consensus.ProtoVote), bs)
+	if err != nil {
+		return nil, err
+	}
+	vm, ok := m.(*consensus.VoteMessage)
+	if !ok {
+		return nil, errNotVote
+	}
+	return vm, nil
+}
+
+var errNotVote = errorString("not a vote message")
+
+type errorString string
+
+func (e errorString) Error() string { return string(e) }
